@@ -29,7 +29,7 @@ Qed.
 Theorem class_benign_ok ci neg items : class_benign (tr_items items) = true -> class_ok ci neg items.
 Proof.
   intros Hb _ x. unfold set_matches.
-  destruct (class_benign_sem neg (tr_items items) Hb (tr_items_valid items)) as [f [-> Hx]].
+  destruct (class_benign_sem ci neg (tr_items items) Hb (tr_items_valid items)) as [f [-> Hx]].
   unfold fold_set, bracket_has. destruct ci; rewrite !Hx, !tr_items_has; reflexivity.
 Qed.
 
